@@ -215,7 +215,9 @@ def _min_error_dual(
     problem.set_objective("max", picos.trace(y_var))
     solution = problem.solve(solver=solver, **kwargs)
 
-    measurements = [problem.get_constraint(k).dual for k in range(n)]
+    # PICOS reports the dual of a complex LMI with respect to the pairing Tr(Z^T X), so the measurement operators
+    # (which pair with the states as Tr(M X)) are the complex conjugates of the reported dual values.
+    measurements = [problem.get_constraint(k).dual.H.T for k in range(n)]
 
     return solution.value, measurements
 
